@@ -105,7 +105,7 @@ class ColanderT(ToolCase):
 
     def draw(self, ctx, src):
         from .c05 import draw_selection
-        self.m = world.gen_world(src)
+        self.m = world.gen_world(src, scale=("manyboxes",), scale_rate=25)
         self.req, self.names = draw_selection(src, self.m)
         self.limit = src.draw("limit.v", 0, self.m.nlev - 1) if src.flag("limit") else None
         self.draw_forms(src)
@@ -254,6 +254,9 @@ RECIPE_SRC = {
             '        return 1.0 / (box_array[..., {i}] - box_array[..., {i}].flat[0])\n'),
     "byname": ('def recipe(field_indexes, box_array):\n    """{names}"""\n'
                '    return box_array[..., field_indexes[{fname!r}]] + 1.0\n'),
+    # a recipe that works on its argument in place (the array it is given is its own to scribble on)
+    "inplace": ('def recipe(field_indexes, box_array):\n    """{names}"""\n'
+                '    w = box_array[..., {i}]\n    w *= 2.0\n    w += box_array[..., {j}]\n    return w\n'),
 }
 
 
@@ -267,6 +270,12 @@ def recipe_eval(kind, arr, i, j):
             return (1.0 / (arr[..., i] - arr[..., i].flat[0]))[..., None]
         if kind == "byname":
             return (arr[..., i] + 1.0)[..., None]
+        if kind == "inplace":
+            a = arr.copy()
+            w = a[..., i]
+            w *= 2.0
+            w += a[..., j]
+            return w[..., None].copy()
     raise ValueError(kind)
 
 
@@ -277,12 +286,14 @@ class ChefUserT(ToolCase):
     def draw(self, ctx, src, m=None):
         self.m = m if m is not None else _world3d(src, special_ok=False)
         nf = len(self.m.fields)
-        self.kind = src.choice("recipe.kind", ["lin", "two", "inv", "byname"])
+        self.kind = src.choice("recipe.kind", ["lin", "two", "inv", "byname", "inplace"])
         self.i = src.draw("recipe.i", 0, nf - 1)
         self.j = src.draw("recipe.j", 0, nf - 1)
         self.newnames = ["new_a", "new_b"] if self.kind == "two" else ["new_a"]
         self.kept = []
-        if src.flag("kept"):
+        # (an in-place recipe is cooked without kept fields: whether kept fields should show the recipe's
+        # scribbling is left open by the statement)
+        if self.kind != "inplace" and src.flag("kept"):
             idx = src.subset("kept.set", nf, min_size=1)
             order = src.perm("kept.order", len(idx)) if len(idx) <= 8 else list(range(len(idx)))
             self.kept = [self.m.fields[idx[k]] for k in order]
